@@ -169,8 +169,8 @@ func genC06() *rapid.Generator[prog.Program] {
 	// changes made afterwards); the lamport rules all apply.
 	orphan := prog.Gen(prog.GenOpts{
 		MinClients: 1, MaxClients: 3, MaxSteps: pick(30, 50), MaxTail: pick(6, 10),
-		EditOps:  []string{"oset", "odel", "rootset", "cinc", "aadd", "oset", "rootset"},
-		SchedOps: []string{"detach", "detach", "detach", "reattach", "reattach", "reattach", "cachepurge", "cachepurge", "attach"},
+		EditOps:    []string{"oset", "odel", "rootset", "cinc", "aadd", "oset", "rootset"},
+		SchedOps:   []string{"detach", "detach", "detach", "reattach", "reattach", "reattach", "cachepurge", "cachepurge", "attach"},
 		SyncWeight: 5, Snapshots: true,
 	})
 	return rapid.Custom(func(t *rapid.T) prog.Program {
